@@ -346,7 +346,15 @@ fn write_data_to_stream<F: Read + Write + Seek>(
         debug_assert_eq!(dir_entry.obj_type, ObjType::Stream);
         (dir_entry.start_sector, dir_entry.stream_len)
     };
-    debug_assert!(buf_offset_from_start <= old_stream_len);
+    if buf_offset_from_start > old_stream_len {
+        // The stream is shorter than the handle believes (an earlier resize
+        // failed part-way, or it was truncated through another handle).
+        invalid_data!(
+            "Cannot write at offset {} of stream (length is {})",
+            buf_offset_from_start,
+            old_stream_len
+        );
+    }
     let new_stream_len =
         old_stream_len.max(buf_offset_from_start + buf.len() as u64);
     let new_start_sector = if old_start_sector == consts::END_OF_CHAIN {
